@@ -1151,6 +1151,7 @@ pub open spec fn write_frame(old: World, fin: World, base: PathV, name: Seq<u8>,
 
     # ---- trait CacheDir ----------------------------------------------------------------------
     t = u.item('src/cache_dir.rs', ['trait CacheDir'])
+    t.replace('pub ( crate ) trait', 'pub trait', 'T9-visibility')
     KEEP = {'temp_dir', 'base_dir', 'trigger', 'capacity', 'get', 'touch', 'ensure_temp_dir', 'cleanup_temp_directory',
             'definitely_cleanup', 'maybe_cleanup', 'maintain', 'set', 'put'}
     dropped = t.drop_members_except(KEEP)
@@ -1196,6 +1197,7 @@ pub open spec fn write_frame(old: World, fin: World, base: PathV, name: Seq<u8>,
              'r.is_err() ==> !first_byte_ok(str_bytes(name)) || str_bytes(name).contains(0x2fu8) || final(w).hard_faults > old(w).hard_faults'),
         ])
     g.body_start('broadcast use group_asref;')
+    u.trait_methods = {'get': g}
 
     # touch
     th = u.under_contract(t.sub(['fn touch']), ['C04', 'C05', 'C06', 'C09', 'C13', 'C15', 'C16', 'C18', 'C20'])
@@ -1219,6 +1221,7 @@ pub open spec fn write_frame(old: World, fin: World, base: PathV, name: Seq<u8>,
              'r.is_err() ==> final(w).same_fs(*old(w)) && (!first_byte_ok(str_bytes(name)) || str_bytes(name).contains(0x2fu8) || final(w).hard_faults > old(w).hard_faults)'),
         ])
     th.body_start('broadcast use group_asref;')
+    u.trait_methods['touch'] = th
 
     # ---- maintenance plumbing and writes ------------------------------------------------------
     BASE = 'self.spec_base()'
@@ -1236,6 +1239,7 @@ pub open spec fn write_frame(old: World, fin: World, base: PathV, name: Seq<u8>,
                  ('C06 C20:at-most-two-filesystem-calls', 'final(w).steps <= old(w).steps + 2 && final(w).opens == old(w).opens'),
                  ('C18:error-is-a-real-fault', 'r.is_err() ==> final(w).hard_faults > old(w).hard_faults')])
     et.body_start('proof { lemma_child(self.spec_base(), temp_name()); }')
+    u.trait_methods['temp_dir'] = et
 
     ct = u.under_contract(t.sub(['fn cleanup_temp_directory']), ['C02', 'C17', 'C18', 'C06'])
     ct.air = r'cache_dir::CacheDir::cleanup_temp_directory'
@@ -1329,11 +1333,96 @@ pub open spec fn write_frame(old: World, fin: World, base: PathV, name: Seq<u8>,
                  '|| !final(w).files.contains_key(pv(value))'),
             ])
         f.body_start('broadcast use group_asref;\n        proof { lemma_cleanup_frame_same(*old(w), self.spec_base()); }')
+        u.trait_methods[opname] = f
         f.insert_before('dst . push ( name )', 'let ghost wm = *w;\n        proof { lemma_child(self.spec_base(), str_bytes(name)); lemma_ready_after_cleanup(*old(w), wm, pv(value), self.spec_base(), str_bytes(name)); }\n        ')
         f.insert_before('return Ok ( ret ) ;', 'proof { if w.hard_faults == old(w).hard_faults { assert(%s(*old(w), wm, *w, self.spec_base(), str_bytes(name), pv(value), ret.is_some())); } }\n            ' % exact)
         f.insert_before('std :: fs :: create_dir_all', 'let ghost w1 = *w;\n        ', nth=0)
         f.insert_after('. expect ( "must have parent" ) ) ? ;', '\n        let ghost w2 = *w;\n        proof { lemma_ready_after_retry(wm, w1, w2, pv(value), self.spec_base(), str_bytes(name)); }', nth=0)
     u.text('}\n')
+
+
+def emit_temp_subdir(u):
+    """lib.rs: `KISMET_TEMPORARY_SUBDIRECTORY`.  Verus does not know the bytes of a string literal, so the
+    weaver compares the literal with `temp_name()` itself: equal -> the fact is emitted as an axiom about
+    that literal; different -> a labelled obligation that cannot be discharged (a violation, not a lost anchor)."""
+    import rustlex
+    c = u.item('src/lib.rs', ['const KISMET_TEMPORARY_SUBDIRECTORY'])
+    c.insert_after('KISMET_TEMPORARY_SUBDIRECTORY : &', "'static ")   # elided lifetime spelled out (Verus consts)
+    lit = [t for t in c.ct[c.item.lo:c.item.hi + 1] if t[0] == 'str']
+    ok = len(lit) == 1 and lit[0][1] == '".kismet_temp"'
+    if ok:
+        u.text('''
+/// The literal in lib.rs is ".kismet_temp" (compared token-for-token by the weaver on this run).
+#[verifier::external_body]
+pub proof fn lemma_temp_subdir()
+    ensures
+        str_bytes(KISMET_TEMPORARY_SUBDIRECTORY) == temp_name(),
+        single_component(temp_name()),
+{
+}
+''')
+        u.trusted_notes.append('lemma_temp_subdir: bytes of the literal ".kismet_temp" (checked token-for-token by the weaver against lib.rs)')
+    else:
+        u.text('''
+pub proof fn lemma_temp_subdir()
+    ensures
+        str_bytes(KISMET_TEMPORARY_SUBDIRECTORY) == temp_name(),
+        single_component(temp_name()),
+{
+    assert(false);   // @L C02 C17 C16:temporary-subdirectory-is-named-dot-kismet-temp
+}
+''')
+
+
+def weave_plain(u):
+    """plain.rs: the CacheDir impl and the thin public wrappers."""
+    emit_temp_subdir(u)
+    u.text('pub mod plain {\n' + MOD_HEAD + 'use crate::cache_dir::CacheDir;\nuse crate::cache_dir::*;\nuse crate::trigger::PeriodicTrigger;\nuse crate::std::fs::File;\n'
+           'use crate::KISMET_TEMPORARY_SUBDIRECTORY as TEMP_SUBDIR;\n')
+    c = u.item('src/plain.rs', ['const MAINTENANCE_SCALE'])
+    st = u.item('src/plain.rs', ['struct Cache'])
+    st.drop_attrs()
+    u.dropped.append('plain.rs: #[derive(Clone, Debug)] on Cache')
+    u.text('''
+impl Cache {
+    pub closed spec fn spec_temp_dir(&self) -> PathV { pbv(self.temp_dir) }
+    pub closed spec fn spec_trig(&self) -> PeriodicTrigger { self.trigger }
+    pub closed spec fn spec_cap(&self) -> usize { self.capacity }
+    /// Handle invariant established by `new`: the stored path is `<base>/.kismet_temp`.
+    pub open spec fn wf(&self) -> bool {
+        self.spec_temp_dir().len() > 0 && base_name(self.spec_temp_dir()) == temp_name()
+    }
+}
+''')
+    ic = u.item('src/plain.rs', ['impl CacheDir for Cache'])
+    ic.drop_inner_attrs('# [ inline ]')
+    for name, body in (('temp_dir', 'self.spec_temp_dir()'), ('base_dir', 'if self.spec_temp_dir().len() > 0 { parent(self.spec_temp_dir()) } else { self.spec_temp_dir() }'),
+                       ('trigger', 'self.spec_trig()'), ('capacity', 'self.spec_cap()')):
+        m = ic.sub(['fn ' + name])
+        ret = {'temp_dir': 'PathV', 'base_dir': 'PathV', 'trigger': 'PeriodicTrigger', 'capacity': 'usize'}[name]
+        m.insert_before_tok(m.fn_kw(), 'open spec fn spec_%s(&self) -> %s { %s }\n\n    ' % (name.replace('_dir', ''), ret, body))
+    INV = ('C02 C18:valid-on-every-exit', 'final(w).inv()')
+    im = u.item('src/plain.rs', ['impl Cache'])
+    nw = u.under_contract(im.sub(['fn new']), ['C10', 'C16', 'C02'])
+    nw.air = 'plain::Cache::new'
+    nw.contract(ensures=[
+        ('C10:maintenance-period-is-a-third-of-the-capacity', 'r.spec_trig().spec_scale() as int == scale_spec((capacity / 3) as u64) && r.spec_cap() == capacity'),
+        ('C16 C02:temp-dir-is-the-kismet-temp-subdirectory-of-the-base', 'r.spec_temp_dir() == child(pbv(base_dir), temp_name()) && r.wf()'),
+    ])
+    nw.body_start('broadcast use group_asref;\n        proof { lemma_temp_subdir(); lemma_child(pbv(base_dir), temp_name()); }')
+    for name, args in (('get', 'name'), ('temp_dir', ''), ('set', 'name, value'), ('put', 'name, value'), ('touch', 'name')):
+        m = u.under_contract(im.sub(['fn ' + name]), ['C11', 'C16', 'C13', 'C05', 'C06', 'C18', 'C20', 'C15'])
+        m.air = 'plain::Cache::' + name
+        m.add_param(W)
+        callee = {'get': 'CacheDir :: get', 'temp_dir': 'CacheDir :: ensure_temp_dir', 'set': 'CacheDir :: set', 'put': 'CacheDir :: put', 'touch': 'CacheDir :: touch'}[name]
+        m.add_arg(callee, TW)
+        # the wrappers have the contract of the trait method they forward to (set/put drop the estimate)
+        req, ens = u.trait_methods[name].last_contract
+        if name in ('set', 'put'):
+            ens = [(l, t) for (l, t) in ens if 'r.unwrap()' not in t]
+        m.contract(requires=[(l, t) for (l, t) in req] + [('', 'self.wf()')], ensures=ens)
+    u.text('}\n')
+    return im
 
 
 def build(u):
@@ -1348,4 +1437,5 @@ def build(u):
     weave_raw_leaves(u)
     weave_maintenance(u)
     weave_cache_dir_head(u)
+    weave_plain(u)
     return u
